@@ -7,5 +7,6 @@ CONSTANTS
   DevEmpty = FALSE
   Disturbs = TRUE
   DevRows = TRUE
+  DevInd = FALSE
 INVARIANTS LengthInv StepOKModKnown
 CHECK_DEADLOCK FALSE
